@@ -31,8 +31,11 @@ Degenerate(ln) == Has(ln, "degenerate")
 Untruncated(ln, nd) == ln.cutoff0 /\ ln.cap >= nd /\ ~Degenerate(ln)
 
 \* bonds: the bonds between neighbouring boundary groups; wbonds: the wrap-around bonds of a periodic direction along
-\* the boundary (compressed by the graph based schemes only: they count for the hypothesis, not for CapRespected)
-HandNeed(ln, g) == MaxI(Need(g.edges, ln.blocks, ln.bonds), Need(g.edges, ln.blocks, ln.wbonds))
+\* the boundary.  The graph based schemes compress the wrap-around bond like any other, the 1D schemes produce an open
+\* boundary and route it through every bond of the chain ("long range bonds are handled by inserting identities"),
+\* the 'mps' sweep leaves it alone: the exact bond size of a periodic boundary is taken as the size the open chain
+\* needs (the product), and the wrap-around bond does not count for CapRespected.
+HandNeed(ln, g) == Need(g.edges, ln.blocks, ln.bonds) * MaxI(1, Need(g.edges, ln.blocks, ln.wbonds))
 
 HandClauses(ln, z, g, nd) ==
   << <<"CapRespected", WithinCap(ln.bonds, ln.cap)>>,
